@@ -503,7 +503,18 @@ impl World {
             }
         }
         out.count("tracker_checks");
-        let rec = |m: &BTreeMap<u64, Vec<u64>>| -> String {
+        // C14, region level: the serialized tracker and every region allocator, for the Lean model
+        // of region.rs (`Redb.Region.TrackerSound`, evaluated by the driver on the decoded state)
+        if self.focus == "c14" {
+            let mut l = format!("rg state {} {}", snap.mem.region_allocators.len(), crate::out::hex(&snap.mem.region_tracker));
+            for bytes in &snap.mem.region_allocators {
+                l.push(' ');
+                l.push_str(&crate::out::hex(bytes));
+            }
+            out.line(&l);
+            out.count("rg_states");
+        }
+        let rec =|m: &BTreeMap<u64, Vec<u64>>| -> String {
             if m.is_empty() {
                 "-".into()
             } else {
@@ -1353,7 +1364,7 @@ pub(crate) fn gen_history(rng: &mut Rng, focus: &str, thorough: bool, page: usiz
             steps.extend(tail);
         }
     }
-    if focus == "c13" {
+    if focus == "c13" || focus == "c10" {
         // compaction attempts against each kind of pin, alone and on top of pending non-durable
         // commits (a pending non-durable commit pins its durable ancestor internally, which
         // must not be mistaken for - nor hide - a user's reader or savepoint on the same id)
@@ -1507,6 +1518,21 @@ impl World {
         }
         self.check_committed_contents(out, &desc);
         self.check_pinned_contents(out, &desc);
+        // C10: the image after compaction passes (pages relocated, catalog entries restaged), after
+        // reopen and after some ordinary durable commits goes to the Lean format checker
+        if self.focus == "c10" && !self.leaky {
+            let durable_commit = matches!(step, Step::Txn(t) if t.immediate() && t.end == End::Commit && res == "ok");
+            let take = match step {
+                Step::Compact => res.starts_with("ok"),
+                Step::Reopen | Step::CrashReopen => true,
+                _ => durable_commit && self.step_no % 3 == 0,
+            };
+            if take && self.db().verif_snapshot().mem.latest_transaction_id == self.db().verif_snapshot().mem.durable_transaction_id {
+                let path = crate::image::save("hist", &self.backend.snapshot());
+                out.count("images");
+                out.line(&format!("img check {path} {} commit {}", self.cfg.page, self.committed.tablespecs()));
+            }
+        }
         if self.leaky {
             if matches!(step, Step::Reopen | Step::CrashReopen) || (matches!(step, Step::CheckIntegrity) && res.starts_with("ok")) {
                 // the allocator state has been rebuilt: exact accounting holds again; the Lean
@@ -1631,8 +1657,9 @@ pub fn run(args: &Args) {
     let focus = args.extra.iter().position(|a| a == "--focus").and_then(|i| args.extra.get(i + 1)).cloned().unwrap_or_else(|| "c06".to_string());
     let mut rng = Rng::new(args.seed ^ fnv64(&[focus.as_bytes()]));
     out.comment(&format!("history focus={focus} seed={} thorough={}", args.seed, args.thorough));
-    // C14's region-level stream is judged by the allocator / tracker oracles alone
-    out.mute_hist = focus == "c14";
+    // C14's region-level stream is judged by the allocator / tracker oracles alone; C10's stream
+    // is about the images
+    out.mute_hist = focus == "c14" || focus == "c10";
     let n = if args.thorough { 1500 } else { 120 };
     let only: Option<usize> = args.extra.iter().position(|a| a == "--only-case").and_then(|i| args.extra.get(i + 1)).and_then(|x| x.parse().ok());
     for case_index in 0..n {
